@@ -192,7 +192,7 @@ func LayoutFocusTypes() []*LType {
 		Arr(U(), 3), Arr(V(2), 2), Arr(V(3), 2),
 		inner, Arr(inner, 2), inner3, Arr(inner3, 2), innerA, Arr(innerA, 2), innerS,
 		St("Outer2", Mem("i", inner3), Mem("k", U()), Mem("j", Arr(inner, 2))),
-		Mat(2, 2), Mat(3, 3), Mat(4, 2), Mat(2, 4), Mat(3, 2), Arr(Mat(2, 2), 2), Arr(Mat(2, 3), 2),
+		Mat(2, 2), Mat(3, 3), Mat(4, 2), Mat(2, 4), Mat(3, 2), Arr(Mat(2, 2), 2), Arr(Mat(2, 3), 2), Arr(Arr(Mat(2, 2), 2), 2),
 		St("InnerM", Mem("x", U()), Mem("m", Mat(2, 2)), Mem("y", U())),
 	}
 }
@@ -310,7 +310,7 @@ func LayoutUniformFocusTypes() []*LType {
 		Arr(V(4), 2), Arr(V(3), 2), Arr(V(2), 2),
 		inner, Arr(inner, 2), inner3, Arr(inner3, 2), innerV, Arr(innerV, 2), innerA, Arr(innerA, 2), innerS, innerArr,
 		St("Outer2", Mem("i", inner3), Mem("k", U()), LMember{Name: "j", T: Arr(inner, 2), Align: 16}),
-		Mat(2, 2), Mat(3, 3), Mat(4, 2), Mat(2, 4), Mat(3, 2), Arr(Mat(2, 2), 2), Arr(Mat(2, 3), 2),
+		Mat(2, 2), Mat(3, 3), Mat(4, 2), Mat(2, 4), Mat(3, 2), Arr(Mat(2, 2), 2), Arr(Mat(2, 3), 2), Arr(Arr(Mat(2, 2), 2), 2),
 		St("InnerM", Mem("x", U()), Mem("m", Mat(2, 2)), Mem("y", U())),
 	}
 }
